@@ -11,6 +11,7 @@ class BufGen(ProgGen):
     def __init__(self, rng, runner, fam, p_ctx=0.2, p_cap=0.35, joint=False, p_fail=0.0, **kw):
         super().__init__(rng, runner, fam, **kw)
         self.p_fail = p_fail        # probability of switching write failures (OSError) on/off
+        self.p_synced = 0          # (live synced arguments: unbuffered programs only)
         self.p_drop = 0.5                     # probability of dropping unused objects before the closing exits
         self.failing = []
         self.p_ctx = p_ctx
